@@ -40,7 +40,7 @@ DOCS = {
 }
 RULE_OF = {"creator": "party", "contact": "party"}
 CAP = {"quick": 10, "thorough": 12}
-DEPTH = {"quick": 5, "thorough": 7}
+DEPTH = {"quick": 5, "thorough": 6}
 
 
 def tsize(t):
